@@ -242,10 +242,12 @@ def run_case(case, name):
 
     def wait_quiet():
         t0 = time.time()
-        while sim.run_state.name not in QUIET and time.time() - t0 < 6.0:
+        # ENDING is transient: the woken worker turns it into ENDED
+        while ((sim.run_state.name not in QUIET or sim.replication_state.name == "ENDING")
+               and time.time() - t0 < 6.0):
             time.sleep(0.0005)
-        if sim.run_state.name not in QUIET:
-            rec["notes"].append("not quiescent after 6 s: " + sim.run_state.name)
+        if sim.run_state.name not in QUIET or sim.replication_state.name == "ENDING":
+            rec["notes"].append("not quiescent after 6 s: " + sim.run_state.name + "/" + sim.replication_state.name)
 
     for c in case["cmds"]:
         r = issue(c)
